@@ -423,6 +423,7 @@
 //!
 
 #![no_std]
+#![allow(unexpected_cfgs)]
 #![forbid(unsafe_code)]
 #![warn(missing_docs)]
 #![cfg_attr(feature = "unstable-doc-cfg", feature(doc_auto_cfg))]
@@ -492,12 +493,20 @@ mod responder;
 mod state;
 mod teardown;
 
+/// Verification hooks (only with `--cfg unimock_verif`).
+#[cfg(unimock_verif)]
+#[doc(hidden)]
+pub mod verif;
+
 use core::any::Any;
 use core::any::TypeId;
 use core::fmt::Debug;
 use core::panic::RefUnwindSafe;
 use core::panic::UnwindSafe;
 
+#[cfg(unimock_verif)]
+use crate::verif::OnceCell;
+#[cfg(not(unimock_verif))]
 use once_cell::sync::OnceCell;
 
 use alloc::Box;
@@ -949,6 +958,8 @@ impl Unimock {
 
 impl Clone for Unimock {
     fn clone(&self) -> Unimock {
+        #[cfg(unimock_verif)]
+        crate::verif::yield_point(crate::verif::Site::Clone);
         Unimock {
             shared_state: self.shared_state.clone(),
             value_chain: Default::default(),
@@ -984,6 +995,8 @@ impl RefUnwindSafe for Unimock {}
 
 impl Drop for Unimock {
     fn drop(&mut self) {
+        #[cfg(unimock_verif)]
+        crate::verif::yield_point(crate::verif::Site::Drop);
         if self.torn_down {
             return;
         }
